@@ -288,7 +288,7 @@ func Describe(kind string, shard int, c *Call, mid int) map[string]interface{} {
 		v = c.Value.String()
 	}
 	return map[string]interface{}{"kind": kind, "shard": shard, "fn": c.Fn, "caller": hx(c.Caller), "rcpt": hx(c.Rcpt), "args": args,
-		"gas": fmt.Sprint(c.Gas), "gasLocked": fmt.Sprint(c.GasLocked), "ct": int(c.CT), "rae": c.RAE, "value": v, "mid": mid}
+		"gas": fmt.Sprint(c.Gas), "gasLocked": fmt.Sprint(c.GasLocked), "ct": int(c.CT), "rae": c.RAE, "value": v, "mid": mid, "dup": false}
 }
 
 var _ = vmcommon.Ok
